@@ -80,6 +80,16 @@ THEOREMS = [
     "Ymq.C15.select128_sound",
     "Ymq.C15.curve128_from_spec",
 ]
+# the same statements for the context the native driver runs (finCtx, Lemmas/CurveBuildFin.lean)
+THEOREMS += [
+    "Ymq.C15.select128_overflow_panics",
+    "Ymq.C15.driver_ctx_lawful",
+    "Ymq.C15.suyama_new_fin_spec",
+    "Ymq.C15.suyama_curve_fin_sound",
+    "Ymq.C15.from_point_fin_sound",
+    "Ymq.C15.select_curve_fin_sound",
+    "Ymq.C15.ecm_select_fin_sound",
+]
 PROFILES = ["release", "chk"]
 TIMEOUT = 30.0
 W = 1 << 64
